@@ -66,7 +66,8 @@ def draw_ctx_factory(cap_mass):
 
 
 def run_molecule(text, sched_kwargs, props=("C04", "C05", "C06", "C07", "C08"), embed="stub", embed_fault_at=None,
-                 forced_draws=None, cap_mass=None, wall=60, expect_complete=True, ast=None, keep_world=True, sched_obj=None, draw_ctx_fn=None, reuse_obj=None, entry="molecule"):
+                 forced_draws=None, cap_mass=None, wall=60, expect_complete=True, ast=None, keep_world=True, sched_obj=None, draw_ctx_fn=None, reuse_obj=None, entry="molecule",
+                 pre_generate_seed=None):
     """Generate one molecule from `text` under the simulator.  Returns RunOutcome."""
     g = boot.load()
     out = RunOutcome()
@@ -105,6 +106,16 @@ def run_molecule(text, sched_kwargs, props=("C04", "C05", "C06", "C07", "C08"), 
                 return out
             if entry == "mirror":
                 # the caller's AST is the mirrored one (notation.mirror_ast); a molecule with fewer than two elements has no mirror
+                if pre_generate_seed is not None:
+                    # the original has been used before its mirror is taken (whatever it remembers is copied into the mirror)
+                    try:
+                        import numpy as np
+
+                        mol.generate(rng=np.random.default_rng(pre_generate_seed))
+                    except SimAbort:
+                        raise
+                    except Exception:
+                        pass
                 try:
                     mol = mol.gen_mirror()
                 except SimAbort:
